@@ -140,8 +140,7 @@ def gen_decision():
     allp = params + eps_names
     txt = "(* GENERATED by harness/translate.py from /repo/odetoolbox/stiffness.py (_draw_decision). Do not edit. *)\n"
     txt += "From Coq Require Import String Bool ZArith List.\nImport ListNotations.\n\n"
-    txt += "Section DecisionGen.\n  Variable T : Type.\n  Variables ltb leb : T -> T -> bool.\n  Variable mul : T -> T -> T.\n\n"
-    txt += "  Definition draw_decision (%s : T) : string :=\n    %s.\nEnd DecisionGen.\n\n" % (" ".join(allp), term)
+    txt += "Definition draw_decision (T : Type) (ltb leb : T -> T -> bool) (mul : T -> T -> T)\n    (%s : T) : string :=\n    %s.\n\n" % (" ".join(allp), term)
     txt += "Definition draw_params : list string := %s.\n" % C.clist([coq_string(p) for p in allp])
     txt += "Definition draw_defaults : list (string * Z) := %s.\n" % C.clist(
         ["(%s, %s)" % (coq_string(k), C.cz(v)) for k, v in defaults.items()])
@@ -149,10 +148,102 @@ def gen_decision():
 
 
 # ---------------------------------------------------------------------------------------
+# RngGen.v  <-  which random generators _evaluate_integrator seeds, and which ones
+#               spike_generator.py draws from
+# ---------------------------------------------------------------------------------------
+
+def _dotted(e):
+    if isinstance(e, ast.Name):
+        return e.id
+    if isinstance(e, ast.Attribute):
+        b = _dotted(e.value)
+        return None if b is None else b + "." + e.attr
+    return None
+
+
+def _module_aliases(tree):
+    """names bound by `import random`, `import numpy as np`, `import numpy.random` ..."""
+    py, npm = set(), set()
+    for node in ast.walk(tree):
+        if isinstance(node, ast.Import):
+            for a in node.names:
+                if a.name == "random":
+                    py.add(a.asname or "random")
+                elif a.name == "numpy":
+                    npm.add((a.asname or "numpy") + ".random")
+                elif a.name == "numpy.random":
+                    npm.add(a.asname or "numpy.random")
+        elif isinstance(node, ast.ImportFrom):
+            if node.module in ("random", "numpy.random", "numpy") :
+                raise TranslateError("from-import of a random module is not supported")
+    return py, npm
+
+
+def gen_rng():
+    forbidden = ("default_rng", "RandomState", "SystemRandom", "urandom", "secrets", "Random(")
+    # --- seeded generators in _evaluate_integrator, before the spike train is generated
+    st_src = _src("odetoolbox/stiffness.py")
+    tree = ast.parse(st_src)
+    py, npm = _module_aliases(tree)
+    f = _find_func(tree, "StiffnessTester", "_evaluate_integrator")
+    seeded = []
+    seen_spikes = False
+    for stmt in f.body:
+        for node in ast.walk(stmt):
+            if isinstance(node, ast.Call):
+                d = _dotted(node.func)
+                if d and d.endswith("spike_times_from_json"):
+                    seen_spikes = True
+                if d and d.endswith(".seed") and not seen_spikes:
+                    base = d[:-len(".seed")]
+                    ok_arg = (len(node.args) == 1 and _dotted(node.args[0]) == "self.random_seed")
+                    if not ok_arg:
+                        raise TranslateError("seed() called with something else than self.random_seed")
+                    if base in py:
+                        seeded.append("PY")
+                    elif base in npm:
+                        seeded.append("NP")
+                    else:
+                        raise TranslateError("seed() on unknown generator " + base)
+    if not seen_spikes:
+        raise TranslateError("_evaluate_integrator no longer calls spike_times_from_json")
+    # --- generators drawn from in spike_generator.py
+    sg_src = _src("odetoolbox/spike_generator.py")
+    for w in forbidden:
+        if w in sg_src or w in st_src:
+            raise TranslateError("unsupported random source: " + w)
+    tree2 = ast.parse(sg_src)
+    py2, npm2 = _module_aliases(tree2)
+    drawn = []
+    for node in ast.walk(tree2):
+        if isinstance(node, ast.Call):
+            d = _dotted(node.func)
+            if not d:
+                continue
+            for b in py2:
+                if d.startswith(b + ".") and d.count(".") == b.count(".") + 1:
+                    if d.endswith(".seed"):
+                        raise TranslateError("spike generator reseeds a generator")
+                    drawn.append("PY")
+            for b in npm2:
+                if d.startswith(b + "."):
+                    if d.endswith(".seed"):
+                        raise TranslateError("spike generator reseeds a generator")
+                    drawn.append("NP")
+    seeded = sorted(set(seeded))
+    drawn = sorted(set(drawn))
+    txt = "(* GENERATED by harness/translate.py from /repo/odetoolbox/stiffness.py (_evaluate_integrator) and spike_generator.py. Do not edit. *)\n"
+    txt += "From Coq Require Import List.\nFrom OdeVerif Require Import Model.Stiffness.\nImport ListNotations.\n\n"
+    txt += "Definition seeded_gens : list gen := %s.\n" % C.clist(seeded)
+    txt += "Definition drawn_gens : list gen := %s.\n" % C.clist(drawn)
+    return txt
+
+
+# ---------------------------------------------------------------------------------------
 # registry
 # ---------------------------------------------------------------------------------------
 
-GENERATORS = {"DecisionGen.v": gen_decision}
+GENERATORS = {"DecisionGen.v": gen_decision, "RngGen.v": gen_rng}
 
 
 def register(name, fn):
